@@ -6,7 +6,13 @@
 //! canonicalised to the reply of the Lean model:
 //!
 //!   C32 run path=<p|-> out=<p|-> msrc=<n|f|c> flags=<letters|-> cmd=<-|trust|frag:<0|1>:<rend;…>>
-//!       facts=<letters|-> fs=<path:f|path:d,…>            -> <outcome> <path:change,…|->
+//!       facts=<letters|-> [alias=<path>><location>;…] fs=<path:f|path:d,…>
+//!                                                            -> <outcome> <path:change,…|->
+//!
+//! `alias` names the path strings whose location is not the lexical one: `sub/../in.jpg`,
+//! `@/in.jpg` (`@` = the absolute path of the case directory), `ln/in.jpg` (`ln` a symlink to
+//! `.`), and an input read through a file symlink. The model takes the location from there and
+//! the string functions (`PathBuf ==`, file_name, extension, with_extension) from the spelling.
 //!
 //! flags: p parent, s sidecar, r remote, f force, i ingredient, d detailed, e early (--info/--tree/--certs)
 //! facts: F format check of the branch passes, S signing / ingredient loading succeeds on the
@@ -17,7 +23,9 @@
 //! Oracle on the implementation (independent of the model):
 //!   * without --force no entry that existed before the run changed or vanished;
 //!   * with --force every changed pre-existing entry is the declared output, the sidecar next
-//!     to it, or lies inside the declared output folder;
+//!     to it, or lies inside the declared output folder (folder modes only: in signing mode
+//!     `-o .` declares nothing below the working directory);
+//!   * a run without `-o` changes nothing at all (no entry changed, vanished or appeared);
 //!   * exit status 0 of a signing run: the output reads back Valid or Trusted with the SDK.
 
 use std::{
@@ -95,6 +103,10 @@ enum Pre {
     /// distinctive content `PRE:<path>`
     Junk,
     Bytes(Arc<Vec<u8>>),
+    /// symbolic link with this target (relative to the link's folder)
+    Symlink(String),
+    /// hard link to this entry (path relative to the case directory; created before)
+    HardLink(String),
 }
 
 #[derive(Clone)]
@@ -123,7 +135,14 @@ struct Case {
     frag_mode: bool,
     /// a declared output existed before the run (non-trivial for the property)
     declared_exists: bool,
+    /// path strings (as in the request) whose location is not the lexical one
+    alias: Vec<(String, String)>,
+    /// the command line has no `-o`
+    no_output: bool,
 }
+
+/// placeholder in `args` for the absolute path of the case directory (`@` in the request)
+const ROOT: &str = "@ROOT@";
 
 struct Fmt {
     /// extension spellings with the same `ext_normal`
@@ -184,6 +203,24 @@ enum OutKind {
     MissingParent,
     Subdir,
     ExtMismatch,
+    /// `sub.d/../<input>` (sub.d exists)
+    AliasDotDot,
+    /// absolute path of the input
+    AliasAbs,
+    /// `ln/<input>` where `ln` is a symlink to `.`
+    AliasDirLink,
+    /// the output is a symlink to the input
+    LinkToInput,
+    /// the output is a symlink to a bystander file
+    LinkToOther,
+    /// the output is a hard link to the input
+    HardLinkInput,
+    /// the output is the real file, PATH reaches it through `sub.d/../<input>`
+    PathDotDot,
+    /// … through the absolute path
+    PathAbs,
+    /// … through a file symlink
+    PathLink,
 }
 
 #[derive(Clone, Copy, PartialEq, Debug)]
@@ -218,14 +255,39 @@ fn sign_case(
     let f = &FMTS[fi];
     let in_name = format!("{}.{}", r.pick(&["in", "photo.v2", "a-b"]), r.pick(f.exts));
     let out_ext = *r.pick(f.exts);
+    let in_ext = Path::new(&in_name).extension().map(|e| e.to_string_lossy().into_owned()).unwrap_or_default();
+    // the output as spelled in the request (`@` = case directory) and the location it leads to
     let out_arg = match ok {
         OutKind::Absent | OutKind::File | OutKind::Dir => format!("{}.{}", r.pick(&["out", "res.x"]), out_ext),
-        OutKind::Same => in_name.clone(),
+        OutKind::Same | OutKind::PathDotDot | OutKind::PathAbs | OutKind::PathLink => in_name.clone(),
         OutKind::Alias => format!("./{in_name}"),
         OutKind::MissingParent => format!("nx/sub/out.{out_ext}"),
         OutKind::Subdir => format!("sub.d/out.{out_ext}"),
         OutKind::ExtMismatch => format!("out.{}", f.other),
+        OutKind::AliasDotDot => format!("sub.d/../{in_name}"),
+        OutKind::AliasAbs => format!("@/{in_name}"),
+        OutKind::AliasDirLink => format!("ln/{in_name}"),
+        OutKind::LinkToInput | OutKind::LinkToOther => format!("lnk.{out_ext}"),
+        OutKind::HardLinkInput => format!("hl.{out_ext}"),
     };
+    let out_loc = match ok {
+        OutKind::AliasDotDot | OutKind::AliasAbs | OutKind::AliasDirLink => in_name.clone(),
+        _ => norm(&out_arg),
+    };
+    let path_arg = match ok {
+        OutKind::PathDotDot => format!("sub.d/../{in_name}"),
+        OutKind::PathAbs => format!("@/{in_name}"),
+        OutKind::PathLink => format!("pl.{in_ext}"),
+        _ => in_name.clone(),
+    };
+    let mut alias: Vec<(String, String)> = vec![];
+    if norm(&out_arg) != out_loc {
+        alias.push((norm(&out_arg), out_loc.clone()));
+        alias.push((sidecar_of(&out_arg), sidecar_of(&out_loc)));
+    }
+    if path_arg != in_name {
+        alias.push((norm(&path_arg), in_name.clone()));
+    }
     let mut pre: Vec<(String, Pre)> = vec![("other.txt".into(), Pre::Junk), ("keep".into(), Pre::Dir), ("keep/k.bin".into(), Pre::Junk)];
     let input_bytes = match input {
         Input::Valid => Some(env.assets[fi].clone()),
@@ -238,13 +300,32 @@ fn sign_case(
     match ok {
         OutKind::File => pre.push((out_arg.clone(), Pre::Junk)),
         OutKind::Dir => pre.push((out_arg.clone(), Pre::Dir)),
-        OutKind::Subdir => pre.push(("sub.d".into(), Pre::Dir)),
+        OutKind::Subdir | OutKind::AliasDotDot | OutKind::PathDotDot => pre.push(("sub.d".into(), Pre::Dir)),
+        OutKind::AliasDirLink => pre.push(("ln".into(), Pre::Symlink(".".into()))),
+        OutKind::LinkToInput => pre.push((out_arg.clone(), Pre::Symlink(in_name.clone()))),
+        OutKind::LinkToOther => pre.push((out_arg.clone(), Pre::Symlink("keep/k.bin".into()))),
+        OutKind::HardLinkInput if input_bytes.is_some() => pre.push((out_arg.clone(), Pre::HardLink(in_name.clone()))),
+        OutKind::PathLink => pre.push((path_arg.clone(), Pre::Symlink(in_name.clone()))),
         _ => {}
     }
-    let sc_path = sidecar_of(&out_arg);
-    let out_n = norm(&out_arg);
-    let mut declared_exists = matches!(ok, OutKind::File | OutKind::Dir)
-        || (matches!(ok, OutKind::Same | OutKind::Alias) && input != Input::Missing);
+    let sc_path = sidecar_of(&out_loc);
+    let out_n = out_loc.clone();
+    let in_exists = input != Input::Missing;
+    let mut declared_exists = matches!(ok, OutKind::File | OutKind::Dir | OutKind::LinkToOther)
+        || (in_exists
+            && matches!(
+                ok,
+                OutKind::Same
+                    | OutKind::Alias
+                    | OutKind::AliasDotDot
+                    | OutKind::AliasAbs
+                    | OutKind::AliasDirLink
+                    | OutKind::HardLinkInput
+                    | OutKind::PathDotDot
+                    | OutKind::PathAbs
+                    | OutKind::PathLink
+            ))
+        || ok == OutKind::LinkToInput;
     if sc_path != out_n && !pre.iter().any(|p| p.0 == sc_path) {
         match sc {
             ScState::File => pre.push((sc_path.clone(), Pre::Junk)),
@@ -255,7 +336,13 @@ fn sign_case(
             declared_exists = true;
         }
     }
-    let mut args: Vec<String> = vec![in_name.clone()];
+    let cli = |s: &str| -> String {
+        match s.strip_prefix("@/") {
+            Some(rest) => format!("{ROOT}/{rest}"),
+            None => s.to_string(),
+        }
+    };
+    let mut args: Vec<String> = vec![cli(&path_arg)];
     match msrc {
         'f' => {
             pre.push(("m.json".into(), Pre::Bytes(Arc::new(env.manifest_json.clone().into_bytes()))));
@@ -268,7 +355,7 @@ fn sign_case(
         }
     }
     args.push("-o".into());
-    args.push(out_arg.clone());
+    args.push(cli(&out_arg));
     if force {
         args.push("-f".into());
     }
@@ -298,7 +385,7 @@ fn sign_case(
     ]);
     let flags = flags_str(&[('p', parent), ('s', sidecar), ('r', remote), ('f', force)]);
     let req = format!(
-        "C32 run path={in_name} out={out_arg} msrc={msrc} flags={flags} cmd={} facts={facts}",
+        "C32 run path={path_arg} out={out_arg} msrc={msrc} flags={flags} cmd={} facts={facts}",
         if trust { "trust" } else { "-" }
     );
     let mut declared = vec![out_n.clone()];
@@ -318,6 +405,8 @@ fn sign_case(
         input_bytes,
         frag_mode: false,
         declared_exists,
+        alias,
+        no_output: false,
     }
 }
 
@@ -330,6 +419,12 @@ enum FolderOut {
     Nested,
     Dotted,
     HoldsInput,
+    /// `keep/../rep` for a full folder `rep`
+    AliasDotDot,
+    /// absolute path of a full folder `rep`
+    AliasAbs,
+    /// `-o .` (never forced: that removes the content of the working directory)
+    Dot,
 }
 
 #[derive(Clone, Copy, PartialEq, Debug)]
@@ -344,9 +439,21 @@ fn folder_case(env: &Env, fin: FolderIn, fo: FolderOut, force: bool, ingredient:
     let out = match fo {
         FolderOut::Nested => "a/b.c/rep",
         FolderOut::Dotted => "rel.v1.0",
+        FolderOut::Dot => ".",
         _ => "rep",
     }
     .to_string();
+    // spelling of the output on the command line / in the request
+    let out_arg = match fo {
+        FolderOut::AliasDotDot => "keep/../rep".to_string(),
+        FolderOut::AliasAbs => "@/rep".to_string(),
+        _ => out.clone(),
+    };
+    let mut alias = vec![];
+    if norm(&out_arg) != out {
+        alias.push((norm(&out_arg), out.clone()));
+        pre.push(("keep".into(), Pre::Dir));
+    }
     let in_path = if fo == FolderOut::HoldsInput { format!("{out}/s.jpg") } else { "s.jpg".to_string() };
     let bytes = match fin {
         FolderIn::Signed => Some(env.signed_jpg.clone()),
@@ -355,7 +462,7 @@ fn folder_case(env: &Env, fin: FolderIn, fo: FolderOut, force: bool, ingredient:
     };
     match fo {
         FolderOut::DirEmpty | FolderOut::HoldsInput => pre.push((out.clone(), Pre::Dir)),
-        FolderOut::DirFull | FolderOut::Dotted => {
+        FolderOut::DirFull | FolderOut::Dotted | FolderOut::AliasDotDot | FolderOut::AliasAbs => {
             pre.push((out.clone(), Pre::Dir));
             pre.push((format!("{out}/old.txt"), Pre::Junk));
             pre.push((format!("{out}/manifest_store.json"), Pre::Junk));
@@ -368,7 +475,7 @@ fn folder_case(env: &Env, fin: FolderIn, fo: FolderOut, force: bool, ingredient:
     if let Some(b) = &bytes {
         pre.push((in_path.clone(), Pre::Bytes(b.clone())));
     }
-    let mut args = vec![in_path.clone(), "-o".to_string(), out.clone()];
+    let mut args = vec![in_path.clone(), "-o".to_string(), out_arg.replacen("@/", &format!("{ROOT}/"), 1)];
     if force {
         args.push("-f".into());
     }
@@ -380,7 +487,7 @@ fn folder_case(env: &Env, fin: FolderIn, fo: FolderOut, force: bool, ingredient:
     }
     let facts = flags_str(&[('F', true), ('S', true), ('U', true), ('M', fin == FolderIn::Signed), ('R', true), ('G', true)]);
     let flags = flags_str(&[('f', force), ('i', ingredient), ('d', detailed)]);
-    let req = format!("C32 run path={in_path} out={out} msrc=n flags={flags} cmd=- facts={facts}");
+    let req = format!("C32 run path={in_path} out={out_arg} msrc=n flags={flags} cmd=- facts={facts}");
     Case {
         group: "folder",
         pre,
@@ -394,6 +501,8 @@ fn folder_case(env: &Env, fin: FolderIn, fo: FolderOut, force: bool, ingredient:
         input_bytes: bytes,
         frag_mode: false,
         declared_exists: !matches!(fo, FolderOut::Absent | FolderOut::Nested),
+        alias,
+        no_output: false,
     }
 }
 
@@ -406,6 +515,8 @@ enum FragOut {
     WithBoth,
     File,
     InitIsDir,
+    /// `-o .`: the destinations are the inputs themselves
+    Dot,
 }
 
 #[derive(Clone, Copy, PartialEq, Debug)]
@@ -423,7 +534,7 @@ enum FragVar {
 fn frag_case(env: &Env, var: FragVar, fo: FragOut, force: bool) -> Case {
     let mut pre: Vec<(String, Pre)> = vec![("other.txt".into(), Pre::Junk)];
     pre.push(("m.json".into(), Pre::Bytes(Arc::new(env.manifest_json.clone().into_bytes()))));
-    let out = "fo".to_string();
+    let out = if fo == FragOut::Dot { ".".to_string() } else { "fo".to_string() };
     // renditions: (folder name or None, init file name, path prefix)
     let rends: Vec<(Option<&str>, &str)> = match var {
         FragVar::Two => vec![(Some("r1"), "init.mp4"), (Some("r2"), "init.mp4")],
@@ -455,7 +566,7 @@ fn frag_case(env: &Env, var: FragVar, fo: FragOut, force: bool) -> Case {
     let last_dir = rends.last().and_then(|r| r.0).unwrap_or("rend");
     let last_init = rends.last().map(|r| r.1).unwrap_or("init.mp4");
     match fo {
-        FragOut::Absent => {}
+        FragOut::Absent | FragOut::Dot => {}
         FragOut::DirEmpty => pre.push((out.clone(), Pre::Dir)),
         FragOut::File => pre.push((out.clone(), Pre::Junk)),
         FragOut::WithInit | FragOut::WithFrag | FragOut::WithBoth | FragOut::InitIsDir => {
@@ -509,7 +620,9 @@ fn frag_case(env: &Env, var: FragVar, fo: FragOut, force: bool) -> Case {
     let flags = flags_str(&[('f', force)]);
     // the request names the first matched init as PATH (the model does not read it in this mode)
     let req = format!("C32 run path={} out={out} msrc=f flags={flags} cmd={cmd} facts={facts}", path_arg.replace('*', "_"));
-    let verify = if rends.len() == 1 && rends[0].0.is_some() {
+    let verify = if fo == FragOut::Dot {
+        Verify::No
+    } else if rends.len() == 1 && rends[0].0.is_some() {
         let d = rends[0].0.unwrap();
         Verify::Fragments(
             format!("{out}/{d}/{}", rends[0].1),
@@ -533,6 +646,8 @@ fn frag_case(env: &Env, var: FragVar, fo: FragOut, force: bool) -> Case {
         input_bytes: None,
         frag_mode: true,
         declared_exists: fo != FragOut::Absent,
+        alias: vec![],
+        no_output: false,
     }
 }
 
@@ -552,6 +667,8 @@ fn misc_cases(env: &Env) -> Vec<Case> {
         ]
     };
     let mk = |args: &[&str], req: String, signed: bool, ro: bool, force: bool| Case {
+        alias: vec![],
+        no_output: !args.contains(&"-o"),
         group: "misc",
         pre: base_pre(signed),
         args: args.iter().map(|s| s.to_string()).collect(),
@@ -679,8 +796,64 @@ fn misc_cases(env: &Env) -> Vec<Case> {
             c.declared = vec!["old.XYZ".into()];
             v.push(c);
         }
+        // `-o .` in signing mode: the working directory entry is the output, its content is not
+        for force in [false, true] {
+            let fl = if force { "f" } else { "-" };
+            for (path, facts) in [("noext", "SURG"), ("in.jpg", "FSURG")] {
+                let mut a = vec![path, "-m", "m.json", "-o", "."];
+                if force {
+                    a.push("-f");
+                }
+                let mut c = mk(&a, format!("C32 run path={path} out=. msrc=f flags={fl} cmd=- facts={facts}"), false, false, force);
+                c.pre.push(("noext".into(), Pre::Bytes(env.assets[0].clone())));
+                c.declared = vec![".".into()];
+                v.push(c);
+            }
+        }
     }
     v
+}
+
+/// The witness of `C2pa.C32.not_refusalClean` / `force_refusal_destroys_output` (cfgW, fsW):
+/// `c2patool in -m m.json -o out -f` with existing files `in` and `out`, and its neighbours
+/// (no force; with --sidecar). Returns the index of the witness within the returned cases.
+fn witness_cases(env: &Env) -> (usize, Vec<Case>) {
+    let mut v = vec![];
+    let mut wi = 0;
+    for (force, sidecar) in [(false, false), (true, false), (true, true), (false, true)] {
+        let mut args: Vec<String> = ["in", "-m", "m.json", "-o", "out"].iter().map(|s| s.to_string()).collect();
+        if force {
+            args.push("-f".into());
+        }
+        if sidecar {
+            args.push("--sidecar".into());
+        }
+        let flags = flags_str(&[('s', sidecar), ('f', force)]);
+        if force && !sidecar {
+            wi = v.len();
+        }
+        v.push(Case {
+            group: "witness",
+            pre: vec![
+                ("in".into(), Pre::Bytes(env.assets[0].clone())),
+                ("out".into(), Pre::Junk),
+                ("m.json".into(), Pre::Bytes(Arc::new(env.manifest_json.clone().into_bytes()))),
+            ],
+            args,
+            req: format!("C32 run path=in out=out msrc=f flags={flags} cmd=- facts=SURG"),
+            force,
+            declared: if sidecar { vec!["out".into(), "out.c2pa".into()] } else { vec!["out".into()] },
+            verify: Verify::No,
+            ro_rule: false,
+            folder_out: None,
+            input_bytes: None,
+            frag_mode: false,
+            declared_exists: true,
+            alias: vec![],
+            no_output: false,
+        });
+    }
+    (wi, v)
 }
 
 /* ---------- running one case ---------- */
@@ -700,7 +873,12 @@ fn walk(root: &Path, rel: &str, out: &mut Snap) {
         let name = e.file_name().to_string_lossy().into_owned();
         let r = if rel.is_empty() { name } else { format!("{rel}/{name}") };
         let Ok(md) = fs::symlink_metadata(e.path()) else { continue };
-        if md.is_dir() {
+        if md.file_type().is_symlink() {
+            // a link is an entry of its own: what it points to, not the content behind it
+            let t = fs::read_link(e.path()).map(|t| t.to_string_lossy().into_owned()).unwrap_or_default();
+            let h: [u8; 32] = Sha256::digest(format!("SYMLINK:{t}").as_bytes()).into();
+            out.insert(r, Ent::File(h, u64::MAX));
+        } else if md.is_dir() {
             out.insert(r.clone(), Ent::Dir);
             walk(root, &r, out);
         } else {
@@ -783,12 +961,23 @@ fn run_case(env: &Env, idx: usize, case: &Case) -> Outp {
                 }
                 fs::write(&full, b.as_slice()).expect("pre file");
             }
+            Pre::Symlink(t) => {
+                if let Some(par) = full.parent() {
+                    fs::create_dir_all(par).expect("pre parent");
+                }
+                std::os::unix::fs::symlink(t, &full).expect("pre symlink");
+            }
+            Pre::HardLink(t) => {
+                fs::hard_link(root.join(t), &full).expect("pre hard link");
+            }
         }
     }
     let mut before = Snap::new();
     walk(&root, "", &mut before);
+    let root_s = root.to_string_lossy().into_owned();
+    let args: Vec<String> = case.args.iter().map(|a| a.replace(ROOT, &root_s)).collect();
     let o = Command::new(&env.bin)
-        .args(&case.args)
+        .args(&args)
         .current_dir(&root)
         .env("XDG_CONFIG_HOME", env.base.join("xdg"))
         .env("HOME", env.base.join("home"))
@@ -967,9 +1156,16 @@ fn oracle(case: &Case, o: &Outp) -> Vec<(String, String)> {
                 "other"
             };
             fails.push((format!("clobber-{role}"), format!("{p} {what} without --force; args {:?}", short_args(case))));
-        } else if !case.declared.iter().any(|d| d == p || d == "." || p.starts_with(&format!("{d}/"))) {
+        } else if !case.declared.iter().any(|d| {
+            let folder = case.frag_mode || case.folder_out.is_some();
+            d == p || (folder && (d == "." || p.starts_with(&format!("{d}/"))))
+        }) {
             fails.push(("force-touches-undeclared".to_string(), format!("{p} {what} with --force but is not a declared output {:?}; args {:?}", case.declared, short_args(case))));
         }
+    }
+    if case.no_output && o.before != o.after {
+        let p = o.after.keys().chain(o.before.keys()).find(|p| o.before.get(*p) != o.after.get(*p)).cloned().unwrap_or_default();
+        fails.push(("no-output-run-acts".to_string(), format!("a run without -o changed the tree at {p}; args {:?}", short_args(case))));
     }
     if let Some(v) = &o.verify {
         match v {
@@ -1040,9 +1236,12 @@ fn prepare(bin: PathBuf) -> Env {
     env
 }
 
-fn gen_cases(env: &Env, run: &Run, rng: &mut Rng) -> Vec<Case> {
+fn gen_cases(env: &Env, run: &Run, rng: &mut Rng) -> (Vec<Case>, usize) {
     let thorough = run.thorough();
     let mut cases = vec![];
+    let (wi, wc) = witness_cases(env);
+    let witness = cases.len() + wi;
+    cases.extend(wc);
     let outs = [
         OutKind::Absent,
         OutKind::File,
@@ -1102,12 +1301,66 @@ fn gen_cases(env: &Env, run: &Run, rng: &mut Rng) -> Vec<Case> {
             }
         }
     }
+    // aliases between PATH and -o beyond `./x`: `..`, absolute path, directory symlink, file
+    // symlink, hard link — on the output side and on the PATH side
+    let alias_kinds = [
+        OutKind::AliasDotDot,
+        OutKind::AliasAbs,
+        OutKind::AliasDirLink,
+        OutKind::LinkToInput,
+        OutKind::LinkToOther,
+        OutKind::HardLinkInput,
+        OutKind::PathDotDot,
+        OutKind::PathAbs,
+        OutKind::PathLink,
+    ];
+    let alias_fmts: Vec<usize> = if thorough { (0..FMTS.len()).collect() } else { vec![0] };
+    for &fi in &alias_fmts {
+        for &ok in &alias_kinds {
+            for force in [false, true] {
+                for &(sidecar, sc) in &[(false, ScState::Absent), (true, ScState::Absent), (true, ScState::File)] {
+                    if fi > 0 && sidecar && !rng.chance(1, 2) {
+                        continue;
+                    }
+                    // a forced --sidecar run replaces the hard link by a byte-identical copy of the
+                    // input, i.e. of what the link showed before: not observable in a snapshot
+                    if ok == OutKind::HardLinkInput && sidecar && force {
+                        continue;
+                    }
+                    cases.push(sign_case(env, rng, fi, Input::Valid, ok, force, sidecar, sc, false, 'f', false, false));
+                }
+                if fi == 0 {
+                    cases.push(sign_case(env, rng, fi, Input::Garbage, ok, force, false, ScState::Absent, false, 'c', false, false));
+                    if !matches!(ok, OutKind::LinkToInput | OutKind::PathLink | OutKind::HardLinkInput) {
+                        cases.push(sign_case(env, rng, fi, Input::Missing, ok, force, false, ScState::Absent, false, 'f', false, false));
+                    }
+                }
+            }
+        }
+    }
     // report / ingredient folder
     for fin in [FolderIn::Signed, FolderIn::Unsigned, FolderIn::Missing] {
-        for fo in [FolderOut::Absent, FolderOut::DirEmpty, FolderOut::DirFull, FolderOut::File, FolderOut::Nested, FolderOut::Dotted, FolderOut::HoldsInput] {
+        for fo in [
+            FolderOut::Absent,
+            FolderOut::DirEmpty,
+            FolderOut::DirFull,
+            FolderOut::File,
+            FolderOut::Nested,
+            FolderOut::Dotted,
+            FolderOut::HoldsInput,
+            FolderOut::AliasDotDot,
+            FolderOut::AliasAbs,
+            FolderOut::Dot,
+        ] {
             for force in [false, true] {
                 for ingredient in [false, true] {
                     for detailed in [false, true] {
+                        if fo == FolderOut::Dot && force {
+                            continue;
+                        }
+                        if matches!(fo, FolderOut::AliasDotDot | FolderOut::AliasAbs | FolderOut::Dot) && (detailed || fin == FolderIn::Missing) {
+                            continue;
+                        }
                         if !thorough && fin != FolderIn::Signed && detailed {
                             continue;
                         }
@@ -1119,7 +1372,7 @@ fn gen_cases(env: &Env, run: &Run, rng: &mut Rng) -> Vec<Case> {
     }
     // fragmented BMFF
     for var in [FragVar::One, FragVar::Two] {
-        for fo in [FragOut::Absent, FragOut::DirEmpty, FragOut::WithInit, FragOut::WithFrag, FragOut::WithBoth, FragOut::File, FragOut::InitIsDir] {
+        for fo in [FragOut::Absent, FragOut::DirEmpty, FragOut::WithInit, FragOut::WithFrag, FragOut::WithBoth, FragOut::File, FragOut::InitIsDir, FragOut::Dot] {
             for force in [false, true] {
                 // two renditions with a directory at an init destination: which init files are
                 // written before the failing copy depends on HashMap order in the SDK
@@ -1138,7 +1391,7 @@ fn gen_cases(env: &Env, run: &Run, rng: &mut Rng) -> Vec<Case> {
         }
     }
     cases.extend(misc_cases(env));
-    cases
+    (cases, witness)
 }
 
 fn run(run: &mut Run, rng: &mut Rng) {
@@ -1147,7 +1400,9 @@ fn run(run: &mut Run, rng: &mut Rng) {
     let bin = build_cli();
     let t_build = t0.elapsed().as_secs_f32();
     let env = Arc::new(prepare(bin));
-    let cases = Arc::new(gen_cases(&env, run, rng));
+    let (cases, witness) = gen_cases(&env, run, rng);
+    let cases = Arc::new(cases);
+    let mut witness_seen = false;
     let n = cases.len();
     let results: Arc<Mutex<Vec<Option<Outp>>>> = Arc::new(Mutex::new((0..n).map(|_| None).collect()));
     let next = Arc::new(Mutex::new(0usize));
@@ -1179,9 +1434,25 @@ fn run(run: &mut Run, rng: &mut Rng) {
             all_ran = false;
             continue;
         };
-        let req = format!("{} fs={}", case.req, fs_field(&o.before));
+        let req = if case.alias.is_empty() {
+            format!("{} fs={}", case.req, fs_field(&o.before))
+        } else {
+            let al: Vec<String> = case.alias.iter().map(|(k, v)| format!("{k}>{v}")).collect();
+            format!("{} alias={} fs={}", case.req, al.join(";"), fs_field(&o.before))
+        };
         let outcome = outcome_of(case, &o);
         let reply = format!("{outcome} {}", diff_of(case, &o));
+        if i == witness {
+            // Lean: force_refusal_destroys_output — "Missing extension" after the output was removed
+            witness_seen = reply == "no-extension out:-f";
+            run.notes.push(format!("witness `c2patool in -m m.json -o out -f` (existing in, out): {reply}"));
+        }
+        if case.force && (outcome == "no-extension" || outcome == "no-filename") && o.before != o.after {
+            run.count("observed:forced-refusal-after-removing-output");
+        }
+        if !case.alias.is_empty() {
+            run.count("alias:location-override");
+        }
         let idx = run.case(req.clone(), reply);
         run.count(&format!("group:{}", case.group));
         run.count(&format!("outcome:{outcome}"));
@@ -1197,6 +1468,7 @@ fn run(run: &mut Run, rng: &mut Rng) {
         }
     }
     run.obligations.insert("every-case-ran".into(), all_ran);
+    run.obligations.insert("witness-force-refusal".into(), witness_seen);
     run.notes.push(format!("c2patool rebuilt from /repo/cli working tree into {CLI_TARGET} (plain build, {t_build:.0} s); {n} command lines, {workers} workers, {:.0} s", t0.elapsed().as_secs_f32() - t_build));
     let _ = fs::remove_dir_all(&env.base);
 }
